@@ -4842,7 +4842,7 @@ class ResponseFuture(object):
                     except KeyError:
                         if not self.prepared_statement:
                             log.error("Tried to execute unknown prepared statement: id=%s",
-                                      query_id.encode('hex'))
+                                      hexlify(query_id))
                             self._set_final_exception(response)
                             return
                         else:
